@@ -105,8 +105,58 @@ def query_terminal(m, meta):
     return {"reproduced": bool(problems), "input": "faults at every external call of query_terminal on a pty (echo on / off at entry)", "observed": problems[:2]}
 
 
-def read_tty(m, meta):
+def _modes():
+    """undisturbed read_tty calls from every kind of terminal mode a caller may already have set (cooked, cbreak with VMIN 0/1/3,
+    echo on/off) with every combination of the function's own arguments: the mode found is the mode left"""
+    import termios as T
+    import term_image
+    import term_image.utils as U
     problems = []
+    master, slave = pty.openpty()
+    saved = U._tty_fd
+    try:
+        U._tty_fd = slave
+        term_image.enable_queries()
+        base = T.tcgetattr(slave)
+        for canon in (True, False):
+            for echo_on in (True, False):
+                for vmin, vtime in ((1, 0), (0, 0), (3, 0), (0, 5)):
+                    attr = [x if not isinstance(x, list) else list(x) for x in base]
+                    attr[3] = (attr[3] | T.ICANON) if canon else (attr[3] & ~T.ICANON)
+                    attr[3] = (attr[3] | T.ECHO) if echo_on else (attr[3] & ~T.ECHO)
+                    if not canon:
+                        attr[6][T.VMIN], attr[6][T.VTIME] = vmin, vtime
+                    T.tcsetattr(slave, T.TCSANOW, attr)
+                    before = T.tcgetattr(slave)
+                    for mn in (0, 1, 3):
+                        for timeout in (None, 0.02):
+                            for echo in (False, True):
+                                if timeout is None and mn > 0:
+                                    os.write(master, b"abc")       # something to read, or the call would block for ever
+                                else:
+                                    os.write(master, b"xyz")
+                                try:
+                                    U.read_tty(lambda s: len(s) < 3, timeout, mn, echo=echo)
+                                except Exception as e:  # noqa: BLE001
+                                    problems.append({"mode on entry": (canon, echo_on, vmin, vtime), "call": (timeout, mn, echo), "raised": repr(e)})
+                                after = T.tcgetattr(slave)
+                                if after != before:
+                                    problems.append({"mode on entry (ICANON, ECHO, VMIN, VTIME)": (canon, echo_on, vmin, vtime),
+                                                     "read_tty(timeout, min, echo)": (timeout, mn, echo),
+                                                     "VMIN/VTIME afterwards": (after[6][T.VMIN], after[6][T.VTIME]), "lflag changed": after[3] != before[3]})
+                                    T.tcsetattr(slave, T.TCSANOW, before)
+                                U.read_tty()                        # drain what is left
+                                T.tcsetattr(slave, T.TCSANOW, before)
+                    if canon:
+                        break
+    finally:
+        U._tty_fd = saved
+        os.close(master); os.close(slave)
+    return problems
+
+
+def read_tty(m, meta):
+    problems = _modes()
     for which in ("read_tty[timed]", "read_tty[drain]"):
         for echo in (True, False):
             problems += _run(which, echo)
